@@ -266,6 +266,24 @@ def search(c, tier, seed, budget_s, max_inputs, gen=None, want_failure=True):
             continue
         valid += 1
         if r is not None:
-            failure = {'args': args, **r}
+            failure = {'args': args, 'index': n - 1, 'seed': seed, 'tier': tier, **r}
             break
     return n, valid, len(outcomes), failure, None
+
+
+def regenerate(c, tier, seed, index):
+    """The index-th input of the contract's deterministic generator stream (for replay)."""
+    import gens
+    if c.gen:
+        g = getattr(gens, c.gen)(tier, seed)
+    else:
+        try:
+            g = default_gen(c, tier, seed)
+        except NotImplementedError:
+            return None
+    for k, args in enumerate(g):
+        if k == index:
+            return args
+        if k > index:
+            break
+    return None
